@@ -1,10 +1,9 @@
 (* C05 — emitted messages are well-formed HTTP/1.1 with exact framing (partial: the size-cap
-   decision and the framing structure of the fixed-length writer are theorems; that the real
-   writer's bytes are this rendering, that chunked streams decode to the data written and that the
-   client's requests are well-formed is decided by the correspondence check and an independent
-   decoder). *)
+   decision, the framing structure of the fixed-length writer and the decoding of chunked streams
+   are theorems; that the real writer's bytes are this rendering and that the client's requests are
+   well-formed is decided by the correspondence check). *)
 From Coq Require Import Ascii String List NArith Arith.
-Require Import Bytes WireModel WireLemmas.
+Require Import Bytes WireModel WireLemmas ChunkLemmas.
 Import ListNotations.
 
 (* whatever is emitted is exactly the rendering, its reported size is its length, and it fits *)
@@ -34,6 +33,18 @@ Theorem C05_framing : forall code hs cs body,
     = head ++ list_of_string "Content-Length: " ++ print_dec (N.of_nat (length body)) ++ crlf ++ crlf ++ body.
 Proof. exact render_framing. Qed.
 Print Assumptions C05_framing.
+
+(* streamed responses: for EVERY list of non-empty chunks the chunked body (one chunk per write, closed
+   by the zero-length chunk) decodes, with the independent reader, to exactly the data written *)
+Theorem C05_stream_decodes : forall cs, Forall (fun c => c <> []) cs ->
+  dechunk (S (length cs)) (flat_map chunk_text cs ++ last_chunk) [] = Some (concat cs).
+Proof. intros cs H. exact (stream_decodes cs [] H). Qed.
+Print Assumptions C05_stream_decodes.
+
+(* the hexadecimal size line of a chunk reads back as the size, for every size *)
+Theorem C05_chunk_size_line_roundtrip : forall n rest, hex_val (print_hex n ++ c_cr :: rest) 0%N = Some (n, c_cr :: rest).
+Proof. exact hex_line_roundtrip. Qed.
+Print Assumptions C05_chunk_size_line_roundtrip.
 
 (* chunked streams: tests (not proofs) that the independent reader gets the data back for chunk
    sizes across the 1/2/3-hex-digit boundaries *)
